@@ -88,6 +88,10 @@ JudgeAlto ==
               IN  ~Near(Tr.wc[j] * 2 * Tr.dd, exact * 1000000, 2 * Tr.dd * 5002) THEN 16
     ELSE 0
 
+\* kind = "empty": a line whose logit matrix has no frame (an empty crop); cmp = what PageParser.compute_line_confidence /
+\* update_confidences report for it (millionths), over = excursion outside [0, 1] in 1e-12
+JudgeEmpty == IF Tr.outcome # "ok" THEN 1 ELSE IF Tr.over > TOL THEN 2 ELSE 0
+
 IsLine == Traces[tid].kind = "line"
 TInit == /\ tid \in 1..NTraces
          /\ w = IF IsLine THEN [f \in 1..T |-> [s \in Syms |-> Traces[tid].w[f][s + 1]]] ELSE [f \in 1..T |-> [s \in Syms |-> 1]]
@@ -96,7 +100,8 @@ TInit == /\ tid \in 1..NTraces
          /\ labels = IF IsLine THEN Traces[tid].labels ELSE <<0>>
          /\ al = IF IsLine THEN Traces[tid].al ELSE <<1>>
          /\ shifted = 0
-         /\ verdict = IF IsLine THEN JudgeLine ELSE IF Traces[tid].kind = "alto" THEN JudgeAlto ELSE JudgeBag
+         /\ verdict = IF IsLine THEN JudgeLine ELSE IF Traces[tid].kind = "alto" THEN JudgeAlto
+                     ELSE IF Traces[tid].kind = "empty" THEN JudgeEmpty ELSE JudgeBag
 
 TNext == UNCHANGED <<vars, tid, verdict>>
 
